@@ -34,7 +34,7 @@ def batch(jobs, k, name_prefix='batch'):
             for m in ms:
                 params += [len(m.params)] + list(m.params)
             b = Job('%s%d[%s..%s]' % (name_prefix, n, ms[0].name, ms[-1].name), ms[0].harness, ms[0].entry, ms[0].units, ms[0].unwind, defs=ms[0].defs, flags=ms[0].flags,
-                    narrow=ms[0].narrow, timeout=int(0.6 * sum(m.timeout for m in ms)), mem=max(m.mem for m in ms), params=params, desc='batch of %d shapes' % len(ms))
+                    narrow=ms[0].narrow, timeout=(ms[0].timeout if len(ms) == 1 else int(0.6 * sum(m.timeout for m in ms))), mem=max(m.mem for m in ms), params=params, desc='batch of %d shapes' % len(ms))
             b.members = [Job(m.name, m.harness, m.entry, m.units, m.unwind, defs=m.defs, flags=m.flags, narrow=m.narrow, timeout=m.timeout, mem=m.mem,
                              params=[1, len(m.params)] + list(m.params), desc=m.desc, bounds=m.bounds, kf=m.kf, kfonly=m.kfonly) for m in ms]
             out.append(b); n += 1
